@@ -491,21 +491,40 @@ func runRaces(w *tr.W, rng *rand.Rand, rounds, keep, bulk int) (int, int) {
 		sized := (r/3)%2 == 0
 		threads := 2 + r%2
 		capa := 1 + rng.Intn(3)
-		var pre []act // sequential prefix of the round (part of the recorded history)
+		var pre []act  // sequential prefix of the round (part of the recorded history)
+		var post []act // sequential suffix, after all goroutines are back
 		var progs [][]act
 		switch r % 3 {
 		case 0:
 			// structured pair: every method against every mutator on the same key, on an absent or a
 			// present key (atomicity of each single method)
 			all := []string{"setnx", "set", "setx", "del", "get", "peek", "exist"}
-			mut := []string{"set", "setx", "del", "setnx"}
+			mut := []string{"set", "setx", "del", "setnx", "clear", "setcap0", "set+get"}
 			c := r / 3
 			a, b := all[c%len(all)], mut[(c/len(all))%len(mut)]
-			if (c/(len(all)*len(mut)))%2 == 1 {
+			switch (c / (len(all) * len(mut))) % 3 {
+			case 1:
 				pre = []act{{Op: "set", K: 1, V: 7, S: 1}}
+			case 2: // key 1 present but not the most recently used one
+				capa = 3
+				pre = []act{{Op: "set", K: 1, V: 7, S: 1}, {Op: "set", K: 2, V: 8, S: 1}}
 			}
 			threads = 2
-			progs = [][]act{{{Op: a, K: 1, V: 100, S: 1}}, {{Op: b, K: 1, V: 200, S: 1}}}
+			var pb []act
+			switch b {
+			case "clear":
+				pb = []act{{Op: "clear"}}
+			case "setcap0":
+				pb = []act{{Op: "setcap", C: 0}, {Op: "setcap", C: capa}}
+			case "set+get": // another caller updates the key and touches a second one
+				pb = []act{{Op: "set", K: 1, V: 200, S: 1}, {Op: "get", K: 2}}
+			default:
+				pb = []act{{Op: b, K: 1, V: 200, S: 1}}
+			}
+			progs = [][]act{{{Op: a, K: 1, V: 100, S: 1}}, pb}
+			// after the race the cache is used on: whatever the race left behind must carry on like the
+			// ideal cache (an element linked into a list it no longer belongs to shows only now)
+			post = []act{{Op: "set", K: 8, V: 300, S: 1}, {Op: "set", K: 9, V: 301, S: 1}, {Op: "get", K: 1}, {Op: "set", K: 10, V: 302, S: 1}}
 		case 1:
 			progs = make([][]act, threads)
 			for t := range progs {
@@ -619,6 +638,12 @@ func runRaces(w *tr.W, rng *rand.Rand, rounds, keep, bulk int) (int, int) {
 			w.Emit(fin(e))
 		}
 		w.Emit(tr.E{"ev": "final", "obs": l.obs()})
+		for _, a := range post {
+			w.Emit(fin(pev(tr.E{"ev": "callr", "a": a.rec(), "r": safeDo(l, a)})))
+		}
+		if len(post) > 0 {
+			w.Emit(tr.E{"ev": "final", "obs": l.obs()})
+		}
 	}
 	return ran, kept
 }
